@@ -15,7 +15,8 @@ from vf import props as P
 
 VERIF = E.VERIF
 KNOWN = os.path.join(VERIF, 'known_findings.txt')
-REPLAYS = os.path.join(VERIF, 'replays')
+EVDIR = os.environ.get('VERIF_EVIDENCE_DIR') or os.path.join(VERIF, 'evidence')   # seed experiments redirect evidence and replays
+REPLAYS = os.path.join(os.environ['VERIF_EVIDENCE_DIR'], 'replays') if os.environ.get('VERIF_EVIDENCE_DIR') else os.path.join(VERIF, 'replays')
 
 def load_known():
     known = []; fixed = []
@@ -162,14 +163,16 @@ def main():
         if k['key'] in printed: continue
         printed.add(k['key']); print('KNOWN-FINDING: property=%s %s [%s]' % (pid, k['what'], k['key']))
     rc = 0
-    for v, key in final_viol:
-        path = os.path.join(REPLAYS, '%s_%s.json' % (pid, re.sub(r'[^A-Za-z0-9_.-]', '_', v['job']['name'])[:120]))
+    for vi, (v, key) in enumerate(final_viol):
+        path = os.path.join(REPLAYS, '%s_%s_%d.json' % (pid, re.sub(r'[^A-Za-z0-9_.-]', '_', v['job']['name'])[:120], vi))
         json.dump({'property': pid, 'key': key, 'message': v['msg'], 'job': v['job'], 'inputs': v['inputs'], 'replay_runs': v.get('replay_runs'),
                    'detail': v.get('detail'), 'how': 'python3 /verif/run.py --replay ' + path}, open(path, 'w'), indent=1)
         print('VIOLATION property=%s replay=%s' % (pid, path)); print('  ' + v['msg'] + '  [' + key + ']')
         rc = 1
-    for u in unconfirmed:
-        print('UNCONFIRMED (solver counterexample did not reproduce natively; %s): %s in %s' % ('cbmc memory-model check, standard-level UB not visible to sanitizers' if u['builtin'] else 'encoding suspect', u['msg'], u['job']['name']))
+    ub = [u for u in unconfirmed if u['builtin']]
+    for u in [u for u in unconfirmed if not u['builtin']] + ub[:3]:
+        print('UNCONFIRMED (solver counterexample did not reproduce natively; %s): %s in %s' % ('cbmc pointer-arithmetic check on optimiser-generated code: forming, not dereferencing, an out-of-bounds pointer; not visible to sanitizers, reported separately' if u['builtin'] else 'encoding suspect', u['msg'], u['job']['name']))
+    if len(ub) > 3: print('UNCONFIRMED: ... and %d more pointer-arithmetic reports of the same kind (all listed in the evidence file)' % (len(ub) - 3))
     enc_suspect = [u for u in unconfirmed if not u['builtin']]
     if enc_suspect and rc == 0:
         framework.append({'job': enc_suspect[0]['job']['name'], 'why': 'counterexample for "%s" did not reproduce against the real C++: encoding or stub suspect' % enc_suspect[0]['msg']})
@@ -203,8 +206,8 @@ def main():
         'assumptions': P.COMMON_ASSUMPTIONS + spec.assumptions,
         'wall_s': round(wall, 1), 'violations': len(final_viol),
     }
-    os.makedirs(os.path.join(VERIF, 'evidence'), exist_ok=True)
-    json.dump(ev, open(os.path.join(VERIF, 'evidence', pid + '.json'), 'w'), indent=1)
+    os.makedirs(EVDIR, exist_ok=True)
+    json.dump(ev, open(os.path.join(EVDIR, pid + '.json'), 'w'), indent=1)
     print('[%s] %s: %d checks, %d assertions decided for this property (%d in total), %d violations, %d known, %d undecided, %.0f s'
           % (pid, 'HELD' if rc == 0 else ('VIOLATED' if rc == 1 else 'ERROR'), len(jobs), decided_tagged, decided, len(final_viol), len(known_hits), len(undecided), wall))
     return rc
